@@ -54,43 +54,52 @@ Section Init.
   Lemma oe_raan : G gen_oe_right_ascension = O0.
   Proof. (sp; reflexivity). Qed.
 
-  Lemma a1_spec : Rpowq ((743669161 / 10000000000) / G gen_oe_mean_motion) (2 / 3) = a1 E.
-  Proof. rewrite oe_mean_motion_spec. (sp; reflexivity). Qed.
+  (* The report's quantities behind the unnamed temporaries of _calculate_basic_orbit_params are located by
+     shape in the generated term (the Rpowq, the numerator over a1^2, the base of the second square), and each
+     is shown equal to the report's value modulo field, so that the order in which the source writes sums and
+     products does not matter. *)
+  Definition TEMP0 : R := (3 / 2) * k2 * ((3 * (theta E)^2 - 1) / powr (1 - e0^2) (3 / 2)).
 
-  Lemma temp0_spec :
-    ((405981 / 500000000) * G gen_sgp4_x3thm1) / (G gen_sgp4_betao * G gen_sgp4_betao2)
-    = (3 / 2) * k2 * ((3 * (theta E)^2 - 1) / powr (1 - e0^2) (3 / 2)).
-  Proof.
-    unfold gen_sgp4_x3thm1, gen_sgp4_betao, gen_sgp4_betao2, powr, k2. rewrite cosIO_spec.
-    rewrite Rpower_3_2 by exact one_minus_e2_pos.
-    pose proof one_minus_e2_pos as P. pose proof (sqrt_lt_R0 _ P) as S.
-    (sp; field). split; apply Rgt_not_eq; assumption.
-  Qed.
+  Lemma a1_any x : x = (743669161 / 10000000000) / G gen_oe_mean_motion -> Rpowq x (2 / 3) = a1 E.
+  Proof. intros ->. rewrite oe_mean_motion_spec. (sp; reflexivity). Qed.
 
-  Lemma delta1_spec :
-    (((405981 / 500000000) * G gen_sgp4_x3thm1) / (G gen_sgp4_betao * G gen_sgp4_betao2)) / (a1 E)^2
-    = delta1 E.
-  Proof. rewrite temp0_spec. unfold delta1, Rdiv. rewrite Rinv_mult || idtac. (sp; ring). Qed.
+  Ltac temp0_tac :=
+    unfold TEMP0, gen_sgp4_x3thm1, gen_sgp4_betao, gen_sgp4_betao2, powr, k2; rewrite ?cosIO_spec;
+    rewrite Rpower_3_2 by exact one_minus_e2_pos;
+    let P := fresh "P" in let S := fresh "S" in
+    pose proof one_minus_e2_pos as P; pose proof (sqrt_lt_R0 _ P) as S;
+    (sp; field); split; apply Rgt_not_eq; assumption.
 
-  Lemma a0_spec :
-    a1 E * (1 - delta1 E * (1 / 3 + delta1 E * (1 + delta1 E * 134 / 81)))
-    = a0 E.
-  Proof. unfold a0. (sp; field). Qed.
+  Lemma delta1_any t : t = TEMP0 -> t / (a1 E)^2 = delta1 E.
+  Proof. intros ->. unfold TEMP0, delta1, Rdiv. rewrite ?Rinv_mult. (sp; ring). Qed.
+  Lemma delta0_any t : t = TEMP0 -> t / (a0 E)^2 = delta0 E.
+  Proof. intros ->. unfold TEMP0, delta0, Rdiv. (sp; ring). Qed.
+  Lemma a0_any x : x = a1 E * (1 - delta1 E * (1 / 3 + delta1 E * (1 + delta1 E * 134 / 81))) -> x = a0 E.
+  Proof. intros ->. unfold a0. (sp; field). Qed.
 
-  Lemma delta0_spec :
-    (((405981 / 500000000) * G gen_sgp4_x3thm1) / (G gen_sgp4_betao * G gen_sgp4_betao2)) / (a0 E)^2
-    = delta0 E.
-  Proof. rewrite temp0_spec. unfold delta0, Rdiv. (sp; ring). Qed.
+  (* after [cbv zeta]: fold a1, then every numerator over a square is TEMP0, then delta1, a0, delta0 *)
+  Ltac basic_params :=
+    cbv zeta;
+    repeat match goal with |- context [Rpowq ?x (2 / 3)] =>
+      rewrite (a1_any x) by (unfold Rdiv; ring) end;
+    repeat match goal with |- context [?t / (a1 E) ^ 2] =>
+      rewrite (delta1_any t) by temp0_tac end;
+    repeat match goal with |- context [?t / ?a ^ 2] =>
+      lazymatch a with
+      | a0 E => fail
+      | _ => replace a with (a0 E) by (symmetry; apply a0_any; unfold Rdiv; ring)
+      end end;
+    repeat match goal with |- context [?t / (a0 E) ^ 2] =>
+      rewrite (delta0_any t) by temp0_tac end.
 
   Lemma xnodp_spec : G gen_sgp4_xnodp = n0'' E.
   Proof.
-    unfold gen_sgp4_xnodp. cbv zeta. rewrite a1_spec, delta1_spec, a0_spec, delta0_spec.
-    rewrite oe_mean_motion_spec. (sp; reflexivity).
+    unfold gen_sgp4_xnodp. basic_params. rewrite oe_mean_motion_spec. (sp; first [reflexivity | (unfold n0''; sp; eq_mod_ring)]).
   Qed.
 
   Lemma aodp_spec : G gen_sgp4_aodp = a0'' E.
   Proof.
-    unfold gen_sgp4_aodp. cbv zeta. rewrite a1_spec, delta1_spec, a0_spec, delta0_spec. (sp; reflexivity).
+    unfold gen_sgp4_aodp. basic_params. (sp; first [reflexivity | (unfold a0''; sp; eq_mod_ring)]).
   Qed.
 
   Lemma perigee_spec : G gen_sgp4_perigee = perigee_km E.
